@@ -356,6 +356,34 @@ func checkC02(c *Ctx, r *Report) {
 		if n == 0 {
 			r.Unk(name+"|success path", fn.Pos(), "no path returns a response")
 		}
+		// ... and tag and status are all a helper judges: every other field of the reply (the echoed
+		// console session ID, the BMC's random number and GUID) is covered by the authentication
+		// code, so a wrong value is an *incorrect-password* outcome of the constructor's comparison —
+		// a helper that rejects it first reports something else
+		respT := c.Named("pkg/ipmi", k)
+		okOnly, whyOnly := true, ""
+		viewInstrs(fn, func(in ssa.Instruction) {
+			bo, isBo := in.(*ssa.BinOp)
+			if !isBo || (bo.Op != token.EQL && bo.Op != token.NEQ) || respT == nil {
+				return
+			}
+			for _, v := range []ssa.Value{bo.X, bo.Y} {
+				for _, o := range append(viewOrigins(fn, v), v) {
+					ld, isLd := stripConv(o).(*ssa.UnOp)
+					if !isLd || ld.Op != token.MUL {
+						continue
+					}
+					fa, isFA := ld.X.(*ssa.FieldAddr)
+					if !isFA || !isPtrTo(fa.X.Type(), respT) {
+						continue
+					}
+					if f := structField(fa.X.Type(), fa.Field); f != nil && f.Name() != "Tag" && f.Name() != "Status" {
+						okOnly, whyOnly = false, f.Name()
+					}
+				}
+			}
+		})
+		r.Check(okOnly, name+"|judges tag and status only", fn.Pos(), "no other reply field is compared before the authentication code", "the helper compares the reply's "+whyOnly+" itself: a value the authentication code covers is rejected with another error than the incorrect-password one (or accepted on other grounds)")
 	}
 
 	// (3) bounds of handshake decoders — E1
